@@ -423,6 +423,8 @@ class StTr:
             if key not in table:
                 raise Shape("length test %s outside the subset" % ast.unparse(node))
             return V(None, B, const=table[key])
+        if isinstance(op, ast.Eq) and a.ty == Lst(N) and b.ty == N:        # labels == label : the Boolean mask
+            return V("%s.map (fun x => x == %s)" % (paren(a, 100), b.t), Lst(B), 90)
         swap = isinstance(op, (ast.Gt, ast.GtE))
         if swap:
             a, b = b, a
@@ -554,6 +556,14 @@ class StTr:
         if isinstance(base_node, ast.Call) and isinstance(base_node.func, ast.Name) and base_node.func.id in ("min", "max") \
                 and k in (0, 1):
             return comp(self.minmax_by(base_node), k)
+        # D[mask][:, mask] : rows and columns selected by one Boolean mask
+        if isinstance(s, ast.Tuple) and len(s.elts) == 2 and isinstance(s.elts[0], ast.Slice) and isinstance(s.elts[1], ast.Name) \
+                and isinstance(base_node, ast.Subscript) and isinstance(base_node.slice, ast.Name) \
+                and base_node.slice.id == s.elts[1].id and self.cfg.get("mask_sub"):
+            m, d = self.expr(s.elts[1]), self.expr(base_node.value)
+            if m.ty != Lst(B) or d.ty != self.cfg["mask_sub"][1]:
+                raise Shape("mask selection %s" % ast.unparse(node))
+            return V("%s (PersimVerif.SrcLib.maskIdx %s) %s" % (self.cfg["mask_sub"][0], paren(m, 100), paren(d, 100)), d.ty, 90)
         # columns of a 2-column array: X[:, j]
         if isinstance(s, ast.Tuple) and len(s.elts) == 2 and isinstance(s.elts[0], ast.Slice) and s.elts[0].lower is None \
                 and s.elts[0].upper is None and s.elts[0].step is None:
@@ -2036,6 +2046,49 @@ TARGETS += [
                     "lengths as naturals")]),
 ]
 
+# ---- persim/gromov_hausdorff.py  ->  Model/Graph.lean (C17)
+IT = Named("IntType")
+DM = Named("DMat")
+GR = dict(file="graph", variables="", err="Err",
+          consts={"np.int8": ("IntType.i8", IT), "np.int16": ("IntType.i16", IT), "np.int32": ("IntType.i32", IT),
+                  "np.int64": ("IntType.i64", IT)},
+          calls={"np.iinfo": ("iinfo_max", "IntType.max", IT), "np.argmax": ("fn", "argmaxFirst", [Lst(N)], N)},
+          raises_table={"ValueError": "Err.tooLarge"})
+GR_SKELETON = (
+    "if not sps.issparse(AG) and (not isinstance(AG, np.ndarray)):\n    AG = np.asarray(AG)\nif sps.issparse(AG):\n"
+    "    AG = AG.tocsr()\nDG = shortest_path(AG, directed=False, unweighted=True)\nif np.any(np.isinf(DG)):\n"
+    "    warnings.warn('disconnected graph is approximated by its largest connected component')\n"
+    "    _, components_by_vertex = connected_components(AG, directed=False)\n"
+    "    components, component_sizes = np.unique(components_by_vertex, return_counts=True)\n    ...\n"
+    "DG = cast_distance_matrix_to_optimal_int_type(DG)\nreturn DG")
+
+TARGETS += [
+    T(GR, func="determine_optimal_int_type", lean="determine_optimal_int_type", pyparams=["value"], params=[("value", N)],
+      raises=True, ret=IT, result="Except Err IntType",
+      obligations=[("src_determine_optimal_int_type_eq_model", "",
+                    "determine_optimal_int_type = optimalIntType",
+                    "by\n  funext v\n  unfold determine_optimal_int_type optimalIntType\n  simp only [List.head?_filter]\n"
+                    "  cases List.find? (fun int_type => decide (v ≤ int_type.max)) [IntType.i8, IntType.i16, IntType.i32, IntType.i64] <;> rfl",
+                    "the generator over `[np.int8, np.int16, np.int32, np.int64]` filtered by `value <= np.iinfo(t).max`, `next` of "
+                    "it, `StopIteration` turned into `ValueError`: the model's `find?`")]),
+    T(GR, func="make_distance_matrix_from_adjacency_matrix", lean="largest_component_restriction", region="range_in",
+      first="largest_component = components[np.argmax(component_sizes)]",
+      last="DG = DG[in_largest_component][:, in_largest_component]", count=3,
+      pyparams=["AG"], err="PersimVerif.SrcLib.PyErr", index_err="PersimVerif.SrcLib.PyErr.indexError",
+      params=[("components", Lst(N)), ("component_sizes", Lst(N)), ("components_by_vertex", Lst(N)), ("DG", DM)],
+      raises=True, ret=DM, ret_name="DG", result="Except PersimVerif.SrcLib.PyErr DMat", mask_sub=("sub none", DM),
+      skeleton=GR_SKELETON,
+      obligations=[("src_largest_component_restriction_eq_model", "(D : DMat) (hc : 0 < numComponents D)",
+                    "largest_component_restriction (List.range (numComponents D)) (sizes (labels D) (numComponents D)) (labels D) D =\n"
+                    "      .ok (restrict D)",
+                    "by\n  have hl := PersimVerif.SrcBridge.Graph.argmaxFirst_sizes_lt (labels D) hc\n"
+                    "  simp only [largest_component_restriction, List.getElem?_range hl, restrict, largestComponent, largestLabel,\n"
+                    "    PersimVerif.SrcBridge.Graph.maskIdx_eq_members]",
+                    "the three selection statements of the disconnected-graph fallback, with what the two library calls before them "
+                    "return as parameters: `connected_components` gives `labels D` (contract of Model/Graph.lean), `np.unique(…, "
+                    "return_counts=True)` of labels `0 … c-1` gives `(range c, sizes)`; the result is the model's `restrict D`")]),
+]
+
 FILES = {
     # key: (python source, generated Lean file, Lean namespace, imports, property, opened namespaces)
     "imager": ("persim/images.py", "SrcImager.lean", "PersimVerif.Src.images",
@@ -2045,9 +2098,12 @@ FILES = {
                    "PersimVerif.Imager PersimVerif.Transformers"),
     "plarith": ("persim/landscapes/auxiliary.py", "SrcPLArith.lean", "PersimVerif.Src.landscapes_auxiliary_arith",
                 "PersimVerif.Model.PLArith", "C09", "PersimVerif.PLArith"),
+    "graph": ("persim/gromov_hausdorff.py", "SrcGraph.lean", "PersimVerif.Src.gromov_hausdorff",
+              "PersimVerif.Model.Graph\nimport PersimVerif.Lemmas.SrcBridgeGraph", "C17", "PersimVerif.Graph"),
 }
 BRIDGES = {"imager": ["PersimVerif/Lemmas/SrcLib.lean", "PersimVerif/Lemmas/SrcBridgeImager.lean"],
-           "landscaper": ["PersimVerif/Lemmas/SrcLib.lean", "PersimVerif/Lemmas/SrcBridgeLandscaper.lean"]}
+           "landscaper": ["PersimVerif/Lemmas/SrcLib.lean", "PersimVerif/Lemmas/SrcBridgeLandscaper.lean"],
+           "graph": ["PersimVerif/Lemmas/SrcLib.lean", "PersimVerif/Lemmas/SrcBridgeGraph.lean"]}
 
 
 from . import py2lean as _base  # noqa: E402   (registers this module's files when it is imported first)
